@@ -404,6 +404,36 @@ def skipped (o : ROpts) (segs : List RSeg) : Bool :=
   | [s] => !s.zigzag || o.justUnifying
   | _ => false
 
+/-! ### region formation -/
+
+/-- first element of the list that overlaps some element of the region (`(*curr)->overlapsWith(*curr2)`), and
+    the list without it -/
+def scanOverlap {α : Type} (ov : α → α → Bool) (region : List α) : List α → Option (α × List α)
+  | [] => none
+  | x :: rest =>
+    if region.any (fun t => ov x t) then some (x, rest)
+    else (scanOverlap ov region rest).map (fun p => (p.1, x :: p.2))
+
+/-- the loop of `nudgeOrthogonalRoutes` that grows `currentRegion`: whenever an element of the remaining
+    list overlaps the region it is moved to the region and the scan starts again from the beginning -/
+def formLoop {α : Type} (ov : α → α → Bool) : Nat → List α → List α → List α × List α
+  | 0, region, rest => (region, rest)
+  | fuel + 1, region, rest =>
+    match scanOverlap ov region rest with
+    | none => (region, rest)
+    | some (x, rest') => formLoop ov fuel (region ++ [x]) rest'
+
+/-- one region: the front element and everything that gets attached to it -/
+def formRegion {α : Type} (ov : α → α → Bool) : List α → List α × List α
+  | [] => ([], [])
+  | x :: rest => formLoop ov rest.length [x] rest
+
+/-- all regions of one pass, in the order they are formed -/
+def formAll {α : Type} (ov : α → α → Bool) : Nat → List α → List (List α)
+  | 0, _ => []
+  | _ + 1, [] => []
+  | fuel + 1, x :: rest => (formRegion ov (x :: rest)).1 :: formAll ov fuel (formRegion ov (x :: rest)).2
+
 /-! ### `linesort` (insertion sort with a partial comparator) and the rules of `CmpLineOrder` that need no point order -/
 
 /-- what the first three rules of `CmpLineOrder::operator()` decide for (lhs, rhs): position, then
